@@ -20,6 +20,7 @@ import RbV.Thm.GenSrcTransform
 import RbV.Thm.GenSrcPosTypes
 import RbV.Thm.GenSrcSaisBuckets
 import RbV.Thm.GenSrcSaisCalcPos
+import RbV.Thm.GenSrcSaisLms
 /-!
 # C03 — suffix array = sorted permutation of all suffixes; LCP; shortest unique substrings
 
@@ -800,5 +801,48 @@ example : (do
 example : Gen.SrcSaisCalcPos.calc_pos some (fun _ => Rs.Res.ok false) (fun _ => Rs.Res.ok false) (fun _ => Rs.Res.ok false)
     (Gen.SrcSaisBuckets.init_bucket_start some) Gen.SrcSaisBuckets.init_bucket_end [] [7] [] [] [] [1, 0] [false, true]
     = Rs.Res.panic := by decide
+
+/-! ### translated text of `Sais::lms_substring_eq`, `Sais::calc_lms_pos` (`RbV/Gen/SrcSaisLms.lean`; builder gensa) -/
+
+/-- translated `lms_substring_eq` (with the translated `is_lms_pos`) = the mirror model `Sais.lmsSubEq` for two **different**
+positions of a text SA-IS accepts: `for k in 0..` never leaves the text (it stops at the latest when a cursor reaches the
+final position) and the fuel `n + 1` suffices; with `sais_lms_substring_eq` the translated function decides equality of typed
+LMS substrings -/
+theorem lms_substring_eq_source_eq_model (t : List Nat) (hv : Sais.Valid t) (i j : Nat) (hi : i < t.length) (hj : j < t.length)
+    (hij : i ≠ j) (hsz : t.length + t.length < 2 ^ 64) :
+    Gen.SrcSaisLms.lms_substring_eq (Gen.SrcPosTypes.is_l_pos (Sais.tyOf t)) (Gen.SrcPosTypes.is_s_pos (Sais.tyOf t))
+      (Gen.SrcPosTypes.is_lms_pos (Sais.tyOf t)) t (Sais.tyOf t) i j = Rs.Res.ok (Sais.lmsSubEq t (Sais.tyOf t) i j) :=
+  Thm.GenSrcSaisLms.lms_substring_eq_eq_model _ _ _ t (Sais.tyOf t) i j hi hj hij hsz
+    (fun p hp => Sais.sym_ne_last hv p hp)
+    (fun q hq => Thm.GenSrcPosTypes.is_lms_pos_eq_model _ q (by rw [Sais.length_tyOf]; exact hq))
+
+/-- translated `calc_lms_pos` = the model's collection loop (`Sais.collectStep`: exactly the LMS positions ascending and their
+indices, `sais_lms_pos`), then `calc_pos` on them, then `sort_lms_suffixes` at the width the dispatch selects — for every pair
+of callees (they are abstract parameters; `calc_pos` is `calc_pos_source_eq_model_partial`) -/
+theorem calc_lms_pos_source_eq_model
+    (calcPos : List Nat → List Nat → Rs.VecMap → List Nat → List Nat → List Nat → List Bool →
+      Rs.Res (List Nat × Rs.VecMap × List Nat × List Nat))
+    (sortLms : Nat → List Nat → List Nat → List Nat → Rs.VecMap → List Nat → List Nat → List Nat → List Bool → Nat →
+      Rs.Res (List Nat × List Nat × List Nat × Rs.VecMap × List Nat × List Nat))
+    (pos lms0 rtp : List Nat) (bsz : Rs.VecMap) (bst be t : List Nat) (hr : t.length ≤ rtp.length) (hsz : t.length < 2 ^ 64) :
+    Gen.SrcSaisLms.calc_lms_pos (Gen.SrcPosTypes.is_l_pos (Sais.tyOf t)) (Gen.SrcPosTypes.is_s_pos (Sais.tyOf t))
+        (Gen.SrcPosTypes.is_lms_pos (Sais.tyOf t)) calcPos sortLms pos lms0 rtp bsz bst be t (Sais.tyOf t) =
+      (do let c := Sais.forUp t.length (Sais.collectStep (Sais.tyOf t)) ([], rtp, 0)
+          let (pos, bsz, bst, be) ← calcPos pos c.1 bsz bst be t (Sais.tyOf t)
+          sortLms (Thm.GenSrcSaisLms.widthOf c.1.length) pos c.1 c.2.1 bsz bst be t (Sais.tyOf t) c.1.length) :=
+  Thm.GenSrcSaisLms.calc_lms_pos_eq_model _ _ _ calcPos sortLms (Sais.tyOf t)
+    (fun q hq => Thm.GenSrcPosTypes.is_lms_pos_eq_model _ q hq) pos lms0 rtp bsz bst be t (Sais.length_tyOf t) hr hsz
+
+-- the LMS substrings at 1 and 3 (`1 3 1`) are equal, those at 1 and 5 (`1 3 0`) are not
+example : (do let ty ← Gen.SrcPosTypes.new [2, 1, 3, 1, 3, 1, 3, 0]
+              let a ← Gen.SrcSaisLms.lms_substring_eq (Gen.SrcPosTypes.is_l_pos ty) (Gen.SrcPosTypes.is_s_pos ty)
+                        (Gen.SrcPosTypes.is_lms_pos ty) [2, 1, 3, 1, 3, 1, 3, 0] ty 1 3
+              let b ← Gen.SrcSaisLms.lms_substring_eq (Gen.SrcPosTypes.is_l_pos ty) (Gen.SrcPosTypes.is_s_pos ty)
+                        (Gen.SrcPosTypes.is_lms_pos ty) [2, 1, 3, 1, 3, 1, 3, 0] ty 1 5
+              pure (a, b)) = Rs.Res.ok (true, false) := by decide
+-- `i = j = n − 1`: the scan runs off the text (never called so)
+example : (do let ty ← Gen.SrcPosTypes.new [1, 0]
+              Gen.SrcSaisLms.lms_substring_eq (Gen.SrcPosTypes.is_l_pos ty) (Gen.SrcPosTypes.is_s_pos ty)
+                (Gen.SrcPosTypes.is_lms_pos ty) [1, 0] ty 1 1) = Rs.Res.panic := by decide
 
 end RbV.Thm.C03
